@@ -12,7 +12,8 @@ import impl  # noqa: E402
 import schema as S  # noqa: E402
 from checklib import Check  # noqa: E402
 
-WORDS = [0, 1, 2, 3, 5, 0xFF, 0x100, 0xFFFF, 0x10000, 0x10001, 0x7FFFFFFF, 0x80000000, 0xFFFFFFFF, 0xFFFFFFFE]
+WORDS = [0, 1, 2, 3, 5, 0x80, 0xFF, 0x100, 0x8000, 0xFFFF, 0x10000, 0x10001, 0x7FFFFFFF, 0x80000000, 0xFFFFFFFF, 0xFFFFFFFE,
+         0x8000000000000000, 0xFFFFFFFFFFFFFFFF]
 SLOW = 1.0   # seconds; a decode of a < 1 KiB input normally takes well under a millisecond
 
 
